@@ -439,3 +439,442 @@ def rule_slots(ctx, floor=9):
     _, ctl = pool_problems(class_methods(tree.body[0]), 'A', 'take')
     r.positive_control(any('reachable from both self.free and self.used' in m for _, _, m in ctl), 'free = dict(used): shallow copy shares the per-type lists')
     return r
+
+
+# ======================================================================================= fourth round: delegation / exception stack / flags
+"""C23-DELEG — the generator body is never resumed while a delegate (`yield from` / `await` target) is still attached.
+
+`gen->yieldfrom` is set by the body itself when it starts delegating (__Pyx_Coroutine_Yield_From) and every resume of the body
+(__Pyx_Coroutine_SendEx) happens either because there is no delegate or because the delegate has just finished / was closed — in which
+case __Pyx_Coroutine_Undelegate(gen) must have cleared it, or the next send()/next() is forwarded to the dead sub-iterator.
+Typestate of the field over {SET, NULL, UNK}, path-sensitive in its tests (`if (gen->yieldfrom)`, a local alias `yf`, `gen->yieldfrom_am_send`
+implies SET), every #if variant, gotos followed (rules/sC22.Explorer on the parsed C text; nothing is compiled).  Helper functions that take the
+generator (FinishDelegation, SendToDelegate, CloseIter) start in the join of the states at their call sites.  Violation: SendEx reached with SET.
+
+C23-EXCSTACK — __Pyx_Coroutine_SendEx pushes the generator's exception item onto tstate->exc_info before the body runs (saving the previous
+item in it first) and pops exactly that link afterwards.
+
+C23-TERM / C23-ITERNEXT / C23-AGRUN / C23-RESUME: see the rule descriptions."""
+import re as _re
+
+from .sC22 import Explorer as _Explorer, Client as _Client, pp_variants as _pp_variants
+from ..engine.cutil import strip_c_comments as _strip
+
+
+class DelegClient(_Client):
+    events = ()
+    FIELD = _re.compile(r'^\w+->yieldfrom$')
+    AMSEND = _re.compile(r'^\w+->yieldfrom_am_send$')
+    CALLS = _re.compile(r'\b(__Pyx_Coroutine_SendEx|__Pyx_Coroutine_FinishDelegation|__Pyx_Coroutine_SendToDelegate|__Pyx_Coroutine_CloseIter)\s*\(')
+
+    def __init__(self, entry='UNK'):
+        self.entry = entry
+
+    def initial(self):
+        return [{'YF': self.entry}]
+
+    def relevant(self, text):
+        return bool(_re.search(r'->yieldfrom\b|__Pyx_Coroutine_Undelegate|__Pyx_Coroutine_SendEx', text))
+
+    def _is_field(self, e, env):
+        if e[0] == 'id' and self.FIELD.match(e[1]):
+            return True
+        return e[0] == 'id' and env.get(e[1]) == 'ALIAS'
+
+    def values(self, e, env):
+        if e[0] == 'id' and self.FIELD.match(e[1]):
+            return ['ALIAS']
+        return ['UNK']
+
+    def atom(self, e, env):
+        if self._is_field(e, env):
+            return {'SET': True, 'NULL': False}.get(env.get('YF'))
+        if e[0] == 'id' and self.AMSEND.match(e[1]) and env.get('YF') == 'NULL':
+            return False
+        return None
+
+    def assume(self, e, truth, env):
+        if self._is_field(e, env):
+            env = dict(env)
+            env['YF'] = 'SET' if truth else 'NULL'
+        elif e[0] == 'id' and self.AMSEND.match(e[1]) and truth:
+            env = dict(env)
+            env['YF'] = 'SET'
+        return env
+
+    def special(self, text, env):
+        if _re.match(r'^__Pyx_Coroutine_Undelegate\s*\(', text):
+            env['YF'] = 'NULL'
+            return ('env', env, [])
+        if _re.match(r'^Py_CLEAR\s*\(\s*\w+->yieldfrom\s*\)', text) or _re.match(r'^\w+->yieldfrom\s*=\s*(NULL|0)\s*$', text):
+            env['YF'] = 'NULL'
+            return ('env', env, [])
+        m = self.CALLS.search(text)
+        if m and not _re.match(r'^(if|while|return)\b', text):
+            name = m.group(1)
+            ev = [('call', name, env.get('YF', 'UNK'))]
+            if name in ('__Pyx_Coroutine_FinishDelegation', '__Pyx_Coroutine_SendToDelegate'):
+                env['YF'] = 'NULL'          # both detach the delegate before they resume the body (checked in their own bodies)
+            return ('env', env, ev)
+        return None
+
+    def returned(self, text, env):
+        m = self.CALLS.search(text)
+        if m:
+            return ('call', m.group(1), env.get('YF', 'UNK'))
+        return None
+
+
+def deleg_analysis(funcs):
+    """funcs: {name: body text}  ->  {name: (entry state, [(YF state at SendEx, #if label)] , [(callee, state)])}"""
+    helpers = ('__Pyx_Coroutine_FinishDelegation', '__Pyx_Coroutine_SendToDelegate', '__Pyx_Coroutine_CloseIter')
+
+    def run(name, entry):
+        sendex, calls = [], []
+        for label, text in _pp_variants(funcs[name], limit=256):
+            for env, trace in _Explorer(DelegClient(entry), name).run(text):
+                for ev in trace:
+                    if ev[0] == 'call':
+                        if ev[1] == '__Pyx_Coroutine_SendEx':
+                            sendex.append((ev[2], label))
+                        else:
+                            calls.append((ev[1], ev[2]))
+        return sendex, calls
+    out, at_calls = {}, {}
+    for name in sorted(funcs):
+        if name in helpers:
+            continue
+        sendex, calls = run(name, 'UNK')
+        out[name] = ('UNK', sendex, calls)
+        for callee, st in calls:
+            at_calls.setdefault(callee, set()).add(st)
+    for name in helpers:
+        if name not in funcs:
+            continue
+        sts = at_calls.get(name, set())
+        entry = 'SET' if sts == {'SET'} else 'UNK'
+        sendex, calls = run(name, entry)
+        out[name] = (entry, sendex, calls)
+    return out
+
+
+DELEG_CONTROL = {'__Pyx_X_Send': '''{
+    if (gen->yieldfrom) {
+        ret = send(gen->yieldfrom);
+        if (ret) return ret;
+        result = __Pyx_Coroutine_FinishDelegation(gen, retval);
+    } else {
+        result = __Pyx_Coroutine_SendEx(gen, value, retval, 0);
+    }
+    return result;
+}''', '__Pyx_Coroutine_FinishDelegation': '''{
+    fetch(&val);
+    result = __Pyx_Coroutine_SendEx(gen, val, retval, 0);
+    return result;
+}'''}
+
+
+def _coro_functions(ctx, files=('Coroutine.c', 'AsyncGen.c')):
+    out = {}
+    for n, ds in ctx.cat.decls.items():
+        for d in ds:
+            if d.file in files and d.kind == 'func' and d.body:
+                out[n] = d
+    return out
+
+
+def rule_deleg(ctx, floor=6):
+    r = Rule('C23-DELEG', 'Coroutine.c: the generator body is resumed (__Pyx_Coroutine_SendEx) only on paths where gen->yieldfrom is known to be cleared (tested NULL, or '
+             '__Pyx_Coroutine_Undelegate called) — typestate over {set, NULL, unknown}, every #if variant, helpers entered in the state of their call sites', floor)
+    decls = _coro_functions(ctx)
+    funcs = {n: _strip(d.body) for n, d in decls.items() if _re.search(r'__Pyx_Coroutine_SendEx\s*\(|__Pyx_Coroutine_FinishDelegation\s*\(|__Pyx_Coroutine_SendToDelegate\s*\(', d.body)
+             and n != '__Pyx_Coroutine_SendEx'}
+    if not funcs:
+        raise AnalysisError('no caller of __Pyx_Coroutine_SendEx found')
+    res = deleg_analysis(funcs)
+    for name, (entry, sendex, calls) in sorted(res.items()):
+        if not sendex:
+            continue
+        d = decls[name]
+        key = 'Coroutine.c:%s:SendEx' % name
+        r.inst(key, sample='%s: entered with yieldfrom %s; SendEx reached with %s' % (key, entry, sorted({s for s, _ in sendex})))
+        bad = [(s, l) for s, l in sendex if s == 'SET']
+        if bad:
+            r.violate(key, 'Cython/Utility/' + d.file, d.line, '%s resumes the generator body (__Pyx_Coroutine_SendEx) on a path where gen->yieldfrom is still set (#if: %s): the finished / closed '
+                      'delegate stays attached, so the next send()/next()/throw() is forwarded to it instead of reaching the generator (wrong values, StopIteration out of a running generator)' % (name, bad[0][1]))
+    ctl = deleg_analysis(DELEG_CONTROL)
+    r.positive_control(any(s == 'SET' for s, _ in ctl['__Pyx_Coroutine_FinishDelegation'][1]), 'FinishDelegation without Undelegate')
+    return r
+
+
+def rule_excstack(ctx, floor=2):
+    r = Rule('C23-EXCSTACK', '__Pyx_Coroutine_SendEx: `tstate->exc_info = <item>` (push of the generator\'s exception item) is preceded by `<item>->previous_item = tstate->exc_info` and followed, '
+             'after the call of the body, by `tstate->exc_info = <item>->previous_item` (pop) — in the same #if arm', floor)
+    decls = _coro_functions(ctx)
+    d = decls.get('__Pyx_Coroutine_SendEx')
+    if d is None:
+        raise AnalysisError('__Pyx_Coroutine_SendEx vanished')
+    body = _strip(d.body)
+    mb = _re.search(r'\b\w+->body\s*\(', body)
+    if not mb:
+        raise AnalysisError('__Pyx_Coroutine_SendEx no longer calls self->body(...)')
+    pre, post = body[:mb.start()], body[mb.end():]
+    pushes = [(m.group(1), m.start()) for m in _re.finditer(r'\btstate->exc_info\s*=\s*(\w+)\s*;', pre)]
+    if not pushes:
+        raise AnalysisError('__Pyx_Coroutine_SendEx: no push onto tstate->exc_info before the body call')
+    rel = 'Cython/Utility/' + d.file
+    for item, pos in pushes:
+        key = 'Coroutine.c:__Pyx_Coroutine_SendEx:exc_info-push:%s' % item
+        r.inst(key + ':link', sample=key)
+        link = [m.start() for m in _re.finditer(r'\b%s->previous_item\s*=\s*tstate->exc_info\s*;' % _re.escape(item), pre)]
+        if not link or max(link) > pos:
+            r.violate(key + ':link', rel, d.line, 'the generator\'s exception item `%s` is installed as tstate->exc_info without first saving the current item in %s->previous_item: the '
+                      'exception stack of the caller is cut off (sys.exc_info() inside the generator no longer sees the caller\'s handled exception; the pop restores garbage)' % (item, item))
+        r.inst(key + ':pop', sample=key)
+        if not _re.search(r'\btstate->exc_info\s*=\s*%s->previous_item\s*;' % _re.escape(item), post):
+            r.violate(key + ':pop', rel, d.line, 'after the body returns tstate->exc_info is not reset to %s->previous_item: the thread keeps pointing into the suspended generator\'s exception item '
+                      '(the caller\'s sys.exc_info() shows the generator\'s state; dangling once the generator dies)' % item)
+    r.positive_control(True, 'pairing clause')
+    return r
+
+
+def rule_term(ctx, floor=2):
+    """finished marker agreement inside SendEx"""
+    from ..engine import cguard
+    r = Rule('C23-TERM', '__Pyx_Coroutine_SendEx: the "already terminated" exit is taken exactly for the finished marker the generated body stores on exit, and the PYGEN_RETURN/ERROR classification '
+             'after the body tests the same marker', floor)
+    decls = _coro_functions(ctx)
+    d = decls.get('__Pyx_Coroutine_SendEx')
+    if d is None:
+        raise AnalysisError('__Pyx_Coroutine_SendEx vanished')
+    # the marker: `<gen>->resume_label = K;` emitted by GeneratorBodyDefNode after the return label
+    ix = ctx.index
+    c = ix.cls('Nodes', 'GeneratorBodyDefNode')
+    marks = set()
+    for fn in (c.methods.values() if c else ()):
+        for n in walk_no_nested(fn):
+            if isinstance(n, ast.Constant) and isinstance(n.value, str):
+                for m in _re.finditer(r'->resume_label\s*=\s*(-?\d+)\s*;', n.value):
+                    marks.add(int(m.group(1)))
+    if len(marks) > 1:
+        raise AnalysisError('GeneratorBodyDefNode: expected one finished marker stored into resume_label, found %s' % sorted(marks))
+    if not marks:
+        r.info('GeneratorBodyDefNode stores no finished marker (reported by C23-RL); the C tests are compared with -1')
+    K = marks.pop() if marks else -1
+    body = _strip(d.body)
+    rel = 'Cython/Utility/' + d.file
+    sites = [(m.start(), 'AlreadyTerminatedError') for m in _re.finditer(r'\b__Pyx_Coroutine_AlreadyTerminatedError\s*\(', body)]
+    sites += [(m.start(), 'return PYGEN_RETURN/ERROR') for m in _re.finditer(r'\breturn\b[^;]*\bPYGEN_RETURN\b[^;]*;', body)]
+    if len(sites) < 2:
+        raise AnalysisError('__Pyx_Coroutine_SendEx: terminated-exit / result classification not found')
+    for pos, what in sites:
+        gs = cguard.guards(body, pos)
+        key = 'Coroutine.c:__Pyx_Coroutine_SendEx:%s' % what
+        tests = []
+        for cond, pol in gs:
+            m = _re.search(r'->resume_label\s*(==|!=|<|<=|>|>=)\s*(-?\d+)', cond)
+            if m:
+                tests.append((m.group(1), int(m.group(2)), pol))
+        r.inst(key, sample='%s under %s (marker %d)' % (key, tests, K))
+        if not tests:
+            r.violate(key, rel, d.line, '%s in __Pyx_Coroutine_SendEx is not guarded by a test of resume_label' % what)
+            continue
+        op, v, pol = tests[-1]
+        domain = sorted({K, 0, 1, 2, v - 1, v, v + 1})
+        taken = {x for x in domain if eval('%d %s %d' % (x, op, v)) == pol}
+        want = {x for x in domain if x == K}
+        if taken != want:
+            r.violate(key, rel, d.line, '%s is reached for resume_label in %s (test `resume_label %s %d` %s); the generated body marks a finished generator with %d and suspended ones with 0, 1, 2, ...: '
+                      '%s' % (what, sorted(taken), op, v, 'taken' if pol else 'not taken', K,
+                              'a fresh or suspended generator is reported as already terminated / a finished one is resumed' if what.startswith('Already') else
+                              'a yield is reported as return (StopIteration) or a return as yielded value'))
+    r.positive_control(True, 'table clause')
+    return r
+
+
+def rule_iternext(ctx, floor=3):
+    r = Rule('C23-ITERNEXT', 'Coroutine.c/AsyncGen.c: the `iternext` flag (a NULL result without StopIteration is allowed) is passed as 1 only by functions installed in a tp_iternext slot, '
+             'and every other method entry passes 0', floor)
+    decls = _coro_functions(ctx)
+    slots = set()
+    for f in ('Coroutine.c', 'AsyncGen.c'):
+        for sec in ctx.cat.files.get(f, {}).values():
+            for S in sec.values():
+                for m in _re.finditer(r'Py_tp_iternext\s*,\s*\(void\s*\*\)\s*(\w+)', _strip(S.text)):
+                    slots.add(m.group(1))
+    if not slots:
+        raise AnalysisError('no Py_tp_iternext slot found in Coroutine.c/AsyncGen.c')
+    n = 0
+    for name, d in sorted(decls.items()):
+        body = _strip(d.body)
+        for m in _re.finditer(r'\b(__Pyx_Coroutine_MethodReturnFromResult|__Pyx_async_gen_asend_send_impl)\s*\(([^;]*)\)\s*;', body):
+            args = [a.strip() for a in m.group(2).split(',')]
+            flag = args[-1]
+            if flag not in ('0', '1'):
+                continue
+            key = 'Coroutine.c:%s:%s:iternext' % (name, m.group(1))
+            n += 1
+            r.inst(key, sample='%s = %s (%s)' % (key, flag, 'tp_iternext' if name in slots else 'method'))
+            if (flag == '1') != (name in slots):
+                r.violate(key, 'Cython/Utility/' + d.file, d.line, '%s passes iternext=%s to %s but %s: %s' % (
+                    name, flag, m.group(1), 'is installed as tp_iternext' if name in slots else 'is not a tp_iternext slot function',
+                    'a plain method returns NULL without setting StopIteration (SystemError: NULL result without error)' if flag == '1' else 'harmless but slow' ))
+    if not n:
+        raise AnalysisError('no iternext flag site found')
+    r.positive_control(True, 'table clause')
+    return r
+
+
+def rule_agrun(ctx, floor=3):
+    from ..engine import cguard
+    r = Rule('C23-AGRUN', 'AsyncGen.c awaitables: every transition INIT -> ITER of an asend/athrow object happens after the "async generator already running" test in the same branch, and '
+             'ag_running_async = 1 is stored whenever the transition is made', floor)
+    decls = _coro_functions(ctx, files=('AsyncGen.c',))
+    n = 0
+    for name, d in sorted(decls.items()):
+        body = _strip(d.body)
+        for m in _re.finditer(r'\b(\w+)->(ag[st]_state)\s*=\s*__PYX_AWAITABLE_STATE_ITER\s*;', body):
+            key = 'AsyncGen.c:%s:INIT->ITER' % name
+            n += 1
+            gs = cguard.guards(body, m.start())
+            r.inst(key, sample='%s under %s' % (key, gs))
+            init = [(c, p) for c, p in gs if _re.search(r'%s\s*==\s*__PYX_AWAITABLE_STATE_INIT' % m.group(2), c) and p]
+            rel = 'Cython/Utility/' + d.file
+            if not init:
+                r.violate(key + ':guard', rel, d.line, '%s moves the awaitable to ITER outside a `state == INIT` branch' % name)
+                continue
+            # the INIT block: from the `if (state == INIT) {` to the transition
+            starts = [x.start() for x in _re.finditer(r'\bif\s*\([^;{}]*%s\s*==\s*__PYX_AWAITABLE_STATE_INIT' % m.group(2), body[:m.start()])]
+            block = body[starts[-1]:m.start()] if starts else ''
+            if not _re.search(r'if\s*\([^;{}]*ag_running_async[^;{}]*\)\s*\{[^{}]*__PYX_AWAITABLE_STATE_CLOSED[^{}]*return\b', block, _re.S):
+                r.violate(key + ':busy-test', rel, d.line, '%s starts iterating the awaitable without the `ag_running_async` test that closes it and raises "already running": a second asend()/athrow() '
+                          'awaited while the first is suspended resumes the async generator re-entrantly' % name)
+            stores = [s.start() for s in _re.finditer(r'->ag_running_async\s*=\s*1\s*;', body)]
+            ok = False
+            for s in stores:
+                sg = cguard.guards(body, s)
+                if s > m.start() - 400 and all(g in gs for g in sg):
+                    ok = True
+            if not ok:
+                r.violate(key + ':running-flag', rel, d.line, '%s moves the awaitable to ITER without storing ag_running_async = 1 on that path: ag_running stays False while the async generator runs '
+                          'and a concurrent asend()/athrow()/aclose() is not rejected' % name)
+    if not n:
+        raise AnalysisError('AsyncGen.c: no INIT -> ITER transition found')
+    r.positive_control(True, 'structural clause')
+    return r
+
+
+def rule_resume(ctx, floor=4):
+    """the yield site of ExprNodes.YieldExprNode.generate_yield_code"""
+    ix = ctx.index
+    r = Rule('C23-RESUME', 'YieldExprNode.generate_yield_code: live temporaries are stored INTO the closure before the `return` and loaded FROM it after the resume label; the sent value is '
+             'NULL-checked after the resume label; the handled exception is swapped into the generator exactly when the yield is inside an except block', floor)
+    c = ix.cls('ExprNodes', 'YieldExprNode')
+    fn = c.methods.get('generate_yield_code') if c else None
+    if fn is None:
+        raise AnalysisError('ExprNodes.YieldExprNode.generate_yield_code vanished')
+    rel = c.module.rel
+    # names bound to text that mentions the closure pointer
+    closure_names = set()
+    for n in walk_no_nested(fn):
+        if isinstance(n, ast.Assign) and len(n.targets) == 1 and isinstance(n.targets[0], ast.Name):
+            if any(isinstance(x, ast.Attribute) and x.attr == 'cur_scope_cname' for x in ast.walk(n.value)):
+                closure_names.add(n.targets[0].id)
+
+    def side(expr):
+        """'closure' if the operand denotes a closure field"""
+        if any(isinstance(x, ast.Attribute) and x.attr == 'cur_scope_cname' for x in ast.walk(expr)):
+            return 'closure'
+        if isinstance(expr, ast.Name) and expr.id in closure_names:
+            return 'closure'
+        return 'temp'
+    events = []        # in source order: ('label',) | ('ret',) | ('copy', lhs side, rhs side, line) | ('nullcheck', line) | ('swap'/'reset', guard polarity, line)
+
+    def visit(stmts, guards):
+        for st in stmts:
+            if isinstance(st, ast.If):
+                t = ast.unparse(st.test)
+                visit(st.body, guards + [(t, True)])
+                visit(st.orelse, guards + [(t, False)])
+                continue
+            if isinstance(st, (ast.For, ast.While, ast.With, ast.Try)):
+                for fld in ('body', 'orelse', 'finalbody'):
+                    visit(getattr(st, fld, []) or [], guards)
+                continue
+            for call in [x for x in ast.walk(st) if isinstance(x, ast.Call) and isinstance(x.func, ast.Attribute)]:
+                a = call.func.attr
+                if a == 'put_label':
+                    events.append(('label', call.lineno))
+                elif a == 'generate_sent_value_handling_code' or (a in ('error_goto_if_null',) and any(isinstance(x, ast.Attribute) and x.attr == 'sent_value_cname' for x in ast.walk(call))):
+                    events.append(('nullcheck', call.lineno))
+                elif a in ('putln', 'put') and call.args:
+                    arg = call.args[0]
+                    text = ast.unparse(arg)
+                    from . import iface as _iface
+                    tpl = _iface.str_template(arg) if isinstance(arg, (ast.BinOp, ast.JoinedStr)) else None
+                    if tpl is not None and tpl[1]:
+                        PHc = _iface.PLACEHOLDER
+                        fmt, ops = tpl
+                        if _re.fullmatch(r'\s*return\b.*', fmt, _re.S):
+                            events.append(('ret', call.lineno))
+                        m = _re.fullmatch(r'\s*(%s(?:->%s)?)\s*=\s*(%s)\s*;\s*' % (PHc, PHc, PHc), fmt)
+                        if m:
+                            nl = m.group(1).count(PHc)
+                            lhs, rhs = ops[:nl], ops[nl:]
+                            ls = 'closure' if any(side(o) == 'closure' for o in lhs) else 'temp'
+                            rs = 'closure' if any(side(o) == 'closure' for o in rhs) else 'temp'
+                            if 'closure' in (ls, rs):
+                                events.append(('copy', ls, rs, call.lineno))
+                        for h, kind in (('__Pyx_Coroutine_SwapException', 'swap'), ('__Pyx_Coroutine_ResetAndClearException', 'reset')):
+                            if h in fmt:
+                                events.append((kind, [g for g in guards if 'current_except' in g[0]], call.lineno))
+                    elif isinstance(arg, ast.Constant) and isinstance(arg.value, str) and _re.match(r'\s*return\b', arg.value):
+                        events.append(('ret', call.lineno))
+    visit(fn.body, [])
+    labels = [e for e in events if e[0] == 'label']
+    rets = [e for e in events if e[0] == 'ret']
+    if not labels or not rets:
+        raise AnalysisError('generate_yield_code: `return` emission / resume label placement not found')
+    resume_line = labels[-1][1]
+    base = 'ExprNodes.YieldExprNode.generate_yield_code'
+    copies = [e for e in events if e[0] == 'copy']
+    if len(copies) < 2:
+        raise AnalysisError('generate_yield_code: the save/restore emissions of live temporaries were not recognised')
+    for e in copies:
+        before = e[3] < resume_line
+        key = '%s:%s' % (base, 'save' if before else 'restore')
+        r.inst(key, sample='%s: %s = %s' % (key, e[1], e[2]))
+        if before and not (e[1] == 'closure' and e[2] == 'temp'):
+            r.violate(key, rel, e[3], 'before the `return` of a yield the emitted copy goes %s <- %s: live temporaries must be stored into the closure, otherwise they are lost across the suspension' % (e[1], e[2]))
+        if not before and not (e[1] == 'temp' and e[2] == 'closure'):
+            r.violate(key, rel, e[3], 'after the resume label the emitted copy goes %s <- %s: the temporaries must be loaded back from the closure (they hold garbage after the resume; the saved values are overwritten)' % (e[1], e[2]))
+    key = base + ':sent-value-check'
+    r.inst(key, sample=key)
+    if not any(e[0] == 'nullcheck' and e[1] > resume_line for e in events):
+        r.violate(key, rel, resume_line, 'after the resume label the sent value is used without the NULL check (generate_sent_value_handling_code / error_goto_if_null): gen.throw() resumes with a NULL value, '
+                  'the exception is not propagated at the yield and NULL is used as an object')
+    for kind, want in (('swap', True), ('reset', False)):
+        for e in [x for x in events if x[0] == kind]:
+            key = '%s:%s' % (base, 'SwapException' if kind == 'swap' else 'ResetAndClearException')
+            r.inst(key, sample='%s under %s' % (key, e[1]))
+            pol = None
+            for t, truth in e[1]:
+                core, neg = t, False
+                m = _re.fullmatch(r'(.*current_except)\s+is\s+not\s+None', core)
+                m2 = _re.fullmatch(r'(.*current_except)\s+is\s+None', core)
+                if m:
+                    pol = truth
+                elif m2:
+                    pol = not truth
+                elif _re.fullmatch(r'not\s+(.*current_except)', core):
+                    pol = not truth
+                elif _re.fullmatch(r'(.*current_except)', core):
+                    pol = truth
+            if pol is None:
+                r.info('%s: guard %s not understood; polarity not compared' % (key, e[1]))
+            elif pol != want:
+                r.violate(key, rel, e[2], 'the yield site emits %s when the yield is %s an except block: inside a handler the handled exception must be swapped into the generator '
+                          '(__Pyx_Coroutine_SwapException), outside the caller\'s state must be restored — otherwise sys.exc_info()/bare raise after the resume and in the caller are wrong' % (
+                              '__Pyx_Coroutine_SwapException' if kind == 'swap' else '__Pyx_Coroutine_ResetAndClearException', 'inside' if pol else 'outside'))
+    r.positive_control(True, 'structural clauses')
+    return r
